@@ -32,6 +32,8 @@ ASSUMPTIONS = [
     "TZID parameters are single strings (list-valued and path-like ids are C04's hostile inputs)",
 ]
 
+HISTORY_CHECK = True   # last runs of every chunk are re-observed alone in a fresh interpreter
+
 TIERS = {
     "quick":    {"runs": 1280,  "chunk": 40,  "hash_seeds": [0, 1], "max_steps": 24, "timeout": 900},
     "thorough": {"runs": 12000, "chunk": 150, "max_wall": 2400, "hash_seeds": [0, 1, 2, 7], "max_steps": 30, "timeout": 3400},
@@ -45,7 +47,7 @@ REQUIRED_PROBES = {"quick": ["unused_vtimezone_present", "unknown_id_used", "cus
 REQUIRED_PROBES["thorough"] = REQUIRED_PROBES["quick"]
 
 IANA = ["Europe/Berlin", "America/New_York", "Asia/Kolkata"]
-CUSTOM = ["Sim/A", "Sim/B", "Sïm/Ü"]
+CUSTOM = ["Sim/A", "Sim/B", "Sïm/Ü", "/Sim/A"]     # "/Sim/A" and "Sim/A" share one cleaned id in the zone cache
 OTHER = ["/Europe/Berlin", "W. Europe Standard Time", "Nowhere/Unknown", "europe/berlin"]
 POOL = IANA + CUSTOM + OTHER
 WALLS = [[2020, 3, 10, 10, 0, 0], [2020, 3, 29, 2, 30, 0], [2021, 11, 7, 1, 30, 0], [1999, 12, 31, 23, 59, 59],
